@@ -18,6 +18,7 @@ type parseCase struct {
 	ParseErr bool     `json:"parseErr"`
 	MustErr  bool     `json:"mustErr"`
 	FirstErr string   `json:"firstErr"`
+	Toks     []string `json:"toks"`
 	Tags     []string `json:"tags"`
 }
 
@@ -31,6 +32,29 @@ func parseFamily(raw json.RawMessage) Result {
 	if _, capped := lexAll(src); capped {
 		res.Status, res.Kind, res.Msg = "viol", "hang", "lexer produced tokens without reaching EOF"
 		return res
+	}
+	// the token types machine P was run on are those the real lexer produces (the model's WS is a text token that
+	// holds white space only): a difference means the model judged another token string than the parser saw
+	tokDrift := ""
+	if len(c.Toks) > 0 {
+		real, _ := lexTokens(src, false)
+		var names []string
+		for _, t := range real {
+			if t.T != "EOF" {
+				names = append(names, t.T)
+			}
+		}
+		same := len(names) == len(c.Toks)
+		for k := 0; same && k < len(names); k++ {
+			want := c.Toks[k]
+			if want == "WS" {
+				want = "HTML"
+			}
+			same = names[k] == want
+		}
+		if !same {
+			tokDrift = fmt.Sprintf("model tokens %v, lexer tokens %v", c.Toks, names)
+		}
 	}
 	p := parser.New(lexer.New(src), "")
 	prog := p.ParseProgram()
@@ -60,6 +84,10 @@ func parseFamily(raw json.RawMessage) Result {
 			res.Status, res.Kind, res.Msg = "viol", "missing-error", "a template cut inside an open construct was accepted without an error"
 			return res
 		}
+	}
+	if tokDrift != "" {
+		res.Status, res.Kind, res.Msg = "drift", "token-types", tokDrift
+		return res
 	}
 	if (len(errs) > 0) != c.ParseErr {
 		res.Status, res.Kind = "drift", "parse-outcome"
